@@ -76,7 +76,8 @@ def base_scn(spec: dict, ops: List[dict], **kw: Any) -> dict:
 
 
 # ----------------------------------------------------------------------------- scenario generators
-def scn_sched(d: Draw, prof: dict, *, selections: float = 0.0, history: float = 0.0, config: float = 0.0) -> dict:
+def scn_sched(d: Draw, prof: dict, *, selections: float = 0.0, history: float = 0.0, config: float = 0.0,
+              compose: float = 0.0) -> dict:
     spec = gen.gen_program(d, prof)
     dg = spec["dags"]["main"]
     ops: List[dict] = []
@@ -97,9 +98,25 @@ def scn_sched(d: Draw, prof: dict, *, selections: float = 0.0, history: float = 
     if history and d.bool(history):
         for _ in range(d.int(1, 2)):
             ops.append(dict(op="call", inst="E:main", args=draw_args(d, dg)))
+    if compose and d.bool(compose):
+        # derive a composed DAG (and maybe run it) before the call under test: must not change the original
+        g = flat_graph(spec, "main")
+        non_setup = sorted(n for n in g["nodes"] if n[0] == "s" and not (
+            dg["stmts"][n[1]]["k"] == "call" and spec["funcs"][dg["stmts"][n[1]]["fn"]]["setup"]))
+        scalar = [n for n in non_setup if dg["stmts"][n[1]]["k"] == "call" and not dg["stmts"][n[1]]["unpack"]
+                  and spec["funcs"][dg["stmts"][n[1]]["fn"]]["ret"] in ("int", "bool")]
+        with_succ = [n for n in scalar if any(m[0] == "s" for m in g["succ"][n])]
+        if with_succ:
+            i_node = d.pick(with_succ)
+            o_node = d.pick(sorted(m for m in g["succ"][i_node] if m[0] == "s"))
+            ops.append(dict(op="compose", inst="E:main", inputs=[["id", i_node[1]]], outputs=[["id", o_node[1]]], single=True, **{"as": "cmp"}))
+            if d.bool(0.5):
+                ops.append(dict(op="call", inst="cmp", args=[str(d.int(1, 50))]))
     if selections and d.bool(selections):
         sel = draw_selection(d, spec, "main")
         ops.append(dict(op="executor", inst="E:main", sel=sel, ex="e0"))
+        if dg["has_setup"] and d.bool(0.35):
+            ops.append(dict(op="setup", inst="E:main"))   # executor created before the setup nodes ran
         ops.append(dict(op="exrun", ex="e0", args=draw_args(d, dg)))
     else:
         ops.append(dict(op="call", inst="E:main", args=draw_args(d, dg)))
@@ -107,21 +124,23 @@ def scn_sched(d: Draw, prof: dict, *, selections: float = 0.0, history: float = 
 
 
 P_C02 = gen.profile(**{**gen.SCHED, "p_flag": 0.25})
-P_C03 = gen.profile(**{**gen.SCHED, "p_reuse": 0.5, "p_setup": 0.12, "p_flag": 0.2})
+P_C03 = gen.profile(**{**gen.SCHED, "p_reuse": 0.5, "p_setup": 0.12, "p_flag": 0.3, "p_unpack": 0.5, "p_fn_unpack": 0.1,
+                       "ret_types": [("int", 4), ("bool", 2), ("tuple2", 3), ("dict", 1)]})
 P_C04 = gen.profile(**{**gen.SCHED, "shape_bias": [("wide", 3), ("uniform", 1)], "mc": (1, 3), "p_flag": 0.05,
                        "resources": [("thread", 4), ("async_thread", 3), ("main_thread", 2)]})
 P_C05 = gen.profile(**{**gen.SCHED, "p_seq": 0.35, "mc": (2, 5), "n_stmts": (3, 10)})
 P_C06 = gen.profile(**{**gen.SCHED, "prio": (-3, 5), "p_prio": 0.85, "p_flag": 0.1})
+P_C06D = gen.profile(**{**gen.SCHED, "prio": (-3, 5), "p_prio": 0.9, "p_flag": 0.05, "p_debug": 0.3, "n_stmts": (3, 10)})
 P_C08 = gen.profile(**{**gen.SCHED, "mc": (2, 5), "n_stmts": (3, 10), "p_seq": 0.15})
 P_C09 = gen.profile(**{**gen.SCHED, "p_flag": 0.25, "p_seq": 0.25, "p_setup": 0.08})
 
 
 def g_c02(d: Draw) -> dict:
-    return scn_sched(d, P_C02)
+    return scn_sched(d, P_C02, compose=0.12, history=0.15)
 
 
 def g_c03(d: Draw) -> dict:
-    return scn_sched(d, P_C03, selections=0.45, history=0.4)
+    return scn_sched(d, P_C03, selections=0.45, history=0.4, compose=0.08)
 
 
 def g_c04(d: Draw) -> dict:
@@ -133,6 +152,10 @@ def g_c05(d: Draw) -> dict:
 
 
 def g_c06(d: Draw) -> dict:
+    if d.bool(0.25):
+        scn = scn_sched(d, P_C06D, selections=0.8, config=0.1)
+        scn["debug_on"] = d.bool(0.7)
+        return scn
     return scn_sched(d, P_C06, selections=0.4, config=0.25)
 
 
@@ -141,14 +164,29 @@ def g_c08(d: Draw) -> dict:
 
 
 def g_c09(d: Draw) -> dict:
+    mode = d.weighted([("faults", 6), ("cancel", 2), ("setup", 2)])
+    if mode == "cancel":
+        spec = gen.gen_program(d, P_C09)
+        dg = spec["dags"]["main"]
+        inst = "E:main" if dg["is_async"] else "A:main"
+        calls = [dict(inst=inst, args=draw_args(d, dg)) for _ in range(d.int(1, 3))]
+        op: Dict[str, Any] = dict(op="gather", calls=calls, ticker=d.bool(0.5), cancel=dict(idx=d.int(0, len(calls) - 1), at=d.int(0, 8)))
+        scn = dict(program=spec, prebuild=[dict(dags=spec["order"]), dict(env="A", dags=spec["order"], flip_async=True)], clients=[[op]],
+                   n_variants=1)
+        if op["ticker"]:
+            scn["fair_only"] = True
+        d.choice(1)
+        return scn
     scn = scn_sched(d, P_C09, selections=0.25, history=0.2)
-    return scn
+    if mode == "setup":
+        scn["clients"][0].insert(0, dict(op="setup", inst="E:main"))
+    return with_fault_variants(d, scn, pairs=2, none_first=True)
 
 
 class Prop:
     def __init__(self, pid: str, gen_fn: Callable[[Draw], dict], clauses: Dict[str, str], *,
                  level: str = "exploration", strategies: Optional[List[str]] = None, n_sched: int = 3,
-                 quick: int = 1500, thorough: int = 40000, watchdog: bool = False,
+                 quick: int = 1500, thorough: int = 40000, watchdog: bool = True,
                  nontrivial: str = "concurrent", technique: str = "", fault_enum: bool = False,
                  hashseeds: Optional[List[str]] = None) -> None:
         self.pid, self.gen, self.clauses, self.level = pid, gen_fn, clauses, level
@@ -174,7 +212,7 @@ reg(Prop("C05", g_c05, {"seq_enter": "C05.a", "seq_during": "C05.b"}))
 reg(Prop("C06", g_c06, {"prio": "C06.a"}))
 reg(Prop("C08", g_c08, {"idle": "C08.a", "idle_during": "C08.b"}))
 reg(Prop("C09", g_c09, {"deadlock": "C09.a", "livelock": "C09.b", "early_return": "C09.c", "count_missing": "C09.c"},
-         watchdog=True))
+         watchdog=True, fault_enum=True, n_sched=2, quick=300, thorough=8000, level="fault_enumeration", nontrivial="all"))
 
 
 # ----------------------------------------------------------------------------- value equivalence family
@@ -226,7 +264,7 @@ P_C14 = gen.profile(**{**gen.SCHED, "n_stmts": (2, 7), "p_flag": 0.15, "p_seq": 
                        "resources": [("thread", 4), ("async_thread", 3), ("main_thread", 3)]})
 
 
-def with_fault_variants(d: Draw, scn: dict, pairs: int = 3) -> dict:
+def with_fault_variants(d: Draw, scn: dict, pairs: int = 3, none_first: bool = False) -> dict:
     """Enumerate the failing node over every reference-executed call site of the last operation x {late, early, BaseException},
     plus sampled pairs.  The variant index is the LAST draw so that a worker can enumerate all variants of one program."""
     from .model import HistoryModel
@@ -234,7 +272,7 @@ def with_fault_variants(d: Draw, scn: dict, pairs: int = 3) -> dict:
     last = len(ops) - 1
     exp = HistoryModel(scn).run_all().get((0, last, 0))
     paths = sorted(p for p, s in (exp.status.items() if exp is not None and exp.exec_paths is not None else []) if s == "exec")
-    variants: List[list] = []
+    variants: List[list] = [[]] if none_first else []
     for p in paths:
         for when, kind in (("late", "exc"), ("early", "exc"), ("late", "base")):
             variants.append([dict(op=[0, last], path=[list(x) for x in p], when=when, kind=kind)])
@@ -268,7 +306,8 @@ P_C07 = gen.profile(**{**gen.SCHED, "prio": (-3, 6), "p_prio": 0.9, "p_flag": 0.
 
 
 def g_c07(d: Draw) -> dict:
-    spec = gen.gen_program(d, P_C07)
+    dbg = d.bool(0.2)
+    spec = gen.gen_program(d, P_C07D if dbg else P_C07)
     dg = spec["dags"]["main"]
     flat = all(s["k"] != "dag" for s in dg["stmts"])
     ops: List[dict] = [dict(op="cprio", inst="E:main")]
@@ -293,9 +332,10 @@ def g_c07(d: Draw) -> dict:
     else:
         ops.append(dict(op="config", inst="E:main", cfg={"max_concurrency": 1}, how="dict"))
         ops.append(dict(op="call", inst="E:main", args=draw_args(d, dg)))
-    return base_scn(spec, ops)
+    return base_scn(spec, ops, debug_on=dbg and d.bool(0.7))
 
 
+P_C07D = gen.profile(**{**P_C07, "p_debug": 0.3, "w_nested": 0})
 reg(Prop("C07", g_c07, {"cprio_table": "C07.a", "order_mc1": "C07.d", "raise": "C07.a"}, nontrivial="multi", n_sched=2,
          quick=1200, thorough=30000, hashseeds=["0", "1", "2", "3"]))
 
@@ -369,9 +409,20 @@ def g_c11(d: Draw) -> dict:
     ops: List[dict] = []
     cur = "E:main"
     ncopy = 0
+    pending: List[str] = []
     for _ in range(d.count(2, 8, 0.7)):
-        mode = d.weighted([("call", 4), ("exec", 4), ("exsetup", 2), ("setup", 2), ("setupsel", 2), ("copy", 1)])
+        mode = d.weighted([("call", 4), ("exec", 4), ("exsetup", 2), ("setup", 2), ("setupsel", 2), ("copy", 1), ("mkexec", 2),
+                           ("runexec", 3)])
         j = len(ops)
+        if mode == "mkexec":
+            sel = draw_selection(d, spec, "main", p_R=0.1, p_X=0.25, p_T=0.7)
+            ops.append(dict(op="executor", inst=cur, sel=sel, ex=f"p{j}"))
+            pending.append(f"p{j}")
+            continue
+        if mode == "runexec":
+            if pending:
+                ops.append(dict(op="exrun", ex=pending.pop(d.choice(len(pending))), args=draw_args(d, dg)))
+            continue
         if mode == "call":
             ops.append(dict(op="call", inst=cur, args=draw_args(d, dg)))
         elif mode == "exec":
@@ -596,5 +647,5 @@ def g_c17(d: Draw) -> dict:
 
 
 reg(Prop("C17", g_c17, {"value": "C17.a", "count_missing": "C17.a", "count_extra": "C17.a", "args": "C17.b", "state_leak": "C17.a",
-                        "raise": "C17.a", "loop_blocked": "C17.c", "deadlock": "C17.c", "livelock": "C17.c"},
+                        "raise": "C17.a", "loop_blocked": "C17.c", "deadlock": "C17.c", "livelock": "C17.c", "thread_pool": "C17.c"},
          nontrivial="concurrent", n_sched=3, quick=1200, thorough=30000, watchdog=True))
